@@ -41,15 +41,8 @@ fn main() {
                         .parent()
                         .unwrap_or(&Path::new("."))
                         .to_path_buf();
-                    let mut out_file_name = String::from(
-                        opt.source
-                            .as_path()
-                            .file_stem()
-                            .unwrap()
-                            .to_str()
-                            .unwrap_or(""),
-                    );
-                    out_file_name += ".hex";
+                    let mut out_file_name = opt.source.as_path().file_stem().unwrap().to_os_string();
+                    out_file_name.push(".hex");
 
                     source_parent.push(out_file_name);
 
@@ -80,15 +73,8 @@ fn main() {
                         .parent()
                         .unwrap_or(&Path::new("."))
                         .to_path_buf();
-                    let mut out_file_name = String::from(
-                        opt.source
-                            .as_path()
-                            .file_stem()
-                            .unwrap()
-                            .to_str()
-                            .unwrap_or(""),
-                    );
-                    out_file_name += ".eep.hex";
+                    let mut out_file_name = opt.source.as_path().file_stem().unwrap().to_os_string();
+                    out_file_name.push(".eep.hex");
 
                     source_parent.push(out_file_name);
 
